@@ -37,9 +37,41 @@ def child(histories, d, tag):
     return outs, p.returncode, p.stderr[-600:]
 
 
+def inductive_proof() -> dict:
+    """spec/OwnershipInd.tla: the same design with an inductive invariant, discharged by Apalache (any history length;
+    3 names, at most 6 tensor ids).  A failed obligation is an error of the specification, not of the code."""
+    import shutil
+
+    from ..common import SPEC
+
+    out = workdir("apalache")
+    obligations = [("base", ["--init=Init", "--inv=IndInv", "--length=0"]),
+                   ("step", ["--init=IndInit", "--inv=IndInv", "--length=1"]),
+                   ("safety-follows", ["--init=IndInit", "--inv=Safety", "--length=0"])]
+    done = []
+    try:
+        for name, args in obligations:
+            try:
+                p = subprocess.run(["apalache-mc", "check", *args, f"--out-dir={out}", "OwnershipInd.tla"], cwd=SPEC,
+                                   capture_output=True, text=True, timeout=1200)
+            except (OSError, subprocess.TimeoutExpired) as e:
+                # the proof is an addition to the bounded exploration below, not a precondition of it
+                return {"obligations": len(obligations), "discharged": len(done), "names": done,
+                        "skipped": f"apalache-mc could not be run for '{name}': {type(e).__name__}"}
+            if "EXITCODE: OK" not in p.stdout:
+                raise MachineryError(f"C13: obligation '{name}' of OwnershipInd.tla is not discharged:\n{p.stdout[-800:]}")
+            done.append(name)
+    finally:
+        shutil.rmtree(out, ignore_errors=True)
+    return {"obligations": len(obligations), "discharged": len(done), "names": done,
+            "checker_cmd": "apalache-mc check --init=IndInit --inv=IndInv --length=1 OwnershipInd.tla (+ base, + Safety)",
+            "bounds": "3 names, <= 6 tensor ids, any history length"}
+
+
 def run(tier, seed):
     if not (VERIF / "native" / "libinterpose.so").exists():
         raise MachineryError("native/libinterpose.so is missing: run ./setup.sh")
+    proof = inductive_proof()
     hists, states, trans = [], 0, 0
     for P in PARAMS[tier]:
         d = workdir("c13")
@@ -118,7 +150,7 @@ def run(tier, seed):
                    "each replayed under the malloc/free interposer with the freed set compared after every action. "
                    "Non-trivial = a history in which some tensor's arrays must be freed before the end.",
            "samples": [h["hist"] for h in hists[:2]], "histories": len(hists), "bounds": PARAMS[tier],
-           "design_invariants": INVARIANTS, "exhaustive": False}
+           "design_invariants": INVARIANTS, "inductive_invariant": proof, "exhaustive": False}
     return {"violations": vio, "coverage": cov,
             "assumptions": ["CPython reference counting + gc.collect() after every action",
                             "an array is watched from the moment its address is read from the returned struct until its first free",
